@@ -419,7 +419,8 @@ def main(argv=None):
                            "seed": seed, "shrunk": v.get("shrunk", False)}, fh, indent=1, default=str)
             # A failure is only believed when its saved case fails again in a fresh process: a worker whose state was
             # damaged (e.g. the per-case alarm firing in the middle of a lazy import inside torch) must not raise an alarm.
-            verdict = _confirm_in_fresh_process(prop_id, os.path.join(core.OUT_DIR, rel))
+            verdict = "violation" if v.get("no_fresh_confirm") else \
+                _confirm_in_fresh_process(prop_id, os.path.join(core.OUT_DIR, rel))
             if verdict == "held":
                 unconfirmed.append({"clause": b, "replay": rel})
                 continue
